@@ -339,12 +339,34 @@ func runC19_3on(c *core.Ctx, name string) {
 	if f == nil || !c.Need("engine.isShutdown", isShutdown) {
 		return
 	}
-	const fDown = 1
+	const (
+		fDown   = 1 << iota
+		fAbsent // the comma-ok of a lookup was false: there is no engine to stop
+	)
 	p := &flow.Problem{Must: true}
 	p.Edge = func(e *flow.Edge, in uint64) uint64 {
 		if e.Cond != nil && e.Tag == nil && e.Sense {
 			if call, ok := ast.Unparen(e.Cond).(*ast.CallExpr); ok && flow.IsCall(f.Info, call, isShutdown) {
 				in |= fDown
+			}
+		}
+		if e.Cond != nil && e.Tag == nil {
+			// the failure edge of Engine.Validate (whose verdicts C19.1 decides)
+			if x, y, op, ok := flow.Cmp(e.Cond); ok && flow.IsNil(f.Info, y) && (op == token.NEQ) == e.Sense {
+				if v, ok := flow.ObjOf(f.Info, x).(*types.Var); ok {
+					if def, ok := singleDef(f, v).(*ast.CallExpr); ok {
+						if cf := flow.CalleeFunc(f.Info, def); cf != nil && cf.Name() == "Validate" && c.P.InModule(cf) {
+							in |= fAbsent
+						}
+					}
+				}
+			}
+		}
+		if e.Cond != nil && e.Tag == nil && !e.Sense {
+			if id, ok := ast.Unparen(e.Cond).(*ast.Ident); ok {
+				if v, ok := f.Info.Uses[id].(*types.Var); ok && types.Identical(v.Type(), types.Typ[types.Bool]) {
+					in |= fAbsent
+				}
 			}
 		}
 		return in
@@ -353,6 +375,19 @@ func runC19_3on(c *core.Ctx, name string) {
 	nNil := 0
 	sol.AtExit(func(b *flow.Block, facts uint64) {
 		r := b.Return
+		if len(r.Results) == 1 && !flow.IsNil(f.Info, r.Results[0]) {
+			// a refusal (not the context's error): only for an engine that is down already or does not exist
+			isCtxErr := false
+			if call, ok := ast.Unparen(r.Results[0]).(*ast.CallExpr); ok {
+				if cf := flow.CalleeFunc(f.Info, call); cf != nil && cf.Name() == "Err" {
+					isCtxErr = true
+				}
+			}
+			if !isCtxErr {
+				c.Check(facts&(fDown|fAbsent) != 0, f.Name, "refusal only for a stopped or unknown engine", r.Pos(), "an error other than ctx.Err() is returned on the isShutdown() edge, on the failure edge of Validate or where the engine lookup failed",
+					"Stop can give up with "+exprStr(r.Results[0])+" although the engine exists and isShutdown() was not observed true: a running engine is never waited for – the caller is told it is already shutting down while loops and callbacks continue")
+			}
+		}
 		if len(r.Results) == 1 && flow.IsNil(f.Info, r.Results[0]) {
 			nNil++
 			c.Check(facts&fDown != 0, f.Name, "return nil only after shutdown completed", r.Pos(), "nil means the engine is fully stopped",
